@@ -85,6 +85,14 @@ func c06Sources() []srcHello {
 					h2 := *h
 					h2.Compression = []byte{1, 0}
 					c06Src = append(c06Src, srcHello{"compression-methods-1-0", rebuildHello(&h2, nil), "example.com"})
+					// hellos of the pre-extension era: the message ends after compression_methods (no
+					// extensions block at all), under each legacy version
+					for _, v := range []uint16{0x0301, 0x0302, 0x0303} {
+						h3 := *h
+						h3.LegacyVersion, h3.HasExts, h3.Exts = v, false, nil
+						h3.Suites = []uint16{tls.TLS_RSA_WITH_AES_128_CBC_SHA, tls.TLS_ECDHE_RSA_WITH_AES_128_CBC_SHA}
+						c06Src = append(c06Src, srcHello{fmt.Sprintf("no-extensions-block/legacy-version-%04x", v), rebuildHello(&h3, nil), ""})
+					}
 				}
 			}
 		}
